@@ -74,8 +74,9 @@ def run(ctx, rep):
         redundant = rng.random() < 0.3
         costmod = rng.choice([0, 0, 3, 4])
         aliased = False
-        if len(pop) >= 3 and rng.random() < 0.15:
-            pop[rng.randrange(1, len(pop))] = pop[0]           # the same object in two slots
+        if len(pop) >= 3 and rng.random() < (0.5 if mp else 0.15):
+            pop[0].fit_set = False
+            pop[rng.randrange(1, len(pop))] = pop[0]           # the same (unevaluated) object in two slots
             aliased = True
         before = [(c.values[0], c.fit_set, c.fitness) for c in pop]
         ids = [id(c) for c in pop]
